@@ -152,6 +152,16 @@ class SymNd(np.ndarray):
             a = a if isinstance(a, SymNd) else SymNd(np.asarray(a, dtype=object))
             return a._cmparr(b, "__" + _UF2OP[ufunc] + "__")
         r = getattr(ufunc, method)(*ins, **kwargs)
+        if ufunc is np.true_divide and method == "__call__" and len(inputs) == 2 and type(inputs[1]) is Sym \
+                and isinstance(r, np.ndarray) and not inputs[1].is_const() and inputs[1].isreal():
+            # array / (its own sum): record the valid lemma sum(quotients) == 1
+            try:
+                num = [Sym.of(x) for x in np.ndarray.reshape(np.asarray(inputs[0], dtype=object), -1)]
+                quo = [Sym.of(x) for x in np.ndarray.reshape(r, -1)]
+                if all(x.isreal() for x in num):
+                    core.CTX.lemma_normalised([q.re for q in quo], [x.re for x in num], inputs[1].re)
+            except Exception:
+                pass
         return _wrap(r)
 
     def __reduce__(self):
@@ -646,15 +656,18 @@ class NpProxy(types.ModuleType):
 
     def __getattr__(self, n):
         f = getattr(np, n)
-        ov = OVERRIDES.get(f) if callable(f) else None
-        if ov is None:
+        if not callable(f) or isinstance(f, type):
             return f
+        ov = OVERRIDES.get(f)
 
         def wrapped(*a, **kw):
-            # numpy dispatches on SymNd arguments by itself; bare symbolic scalars need help
-            if any(type(x) is Sym or isinstance(x, SBool) for x in a) or any(type(x) is Sym for x in kw.values()):
+            if not MODE["symbolic"]:
+                return f(*a, **kw)
+            # numpy dispatches on SymNd arguments by itself; bare symbolic scalars need help, and results
+            # assembled from python lists of symbolic arrays come back as plain object arrays
+            if ov is not None and (any(type(x) is Sym or isinstance(x, SBool) for x in a) or any(type(x) is Sym for x in kw.values())):
                 return ov(*a, **kw)
-            return f(*a, **kw)
+            return _wrap(f(*a, **kw))
         wrapped.__name__ = n
         return wrapped
 
